@@ -4,6 +4,7 @@ import (
 	"fmt"
 	"go/ast"
 	"go/token"
+	"sort"
 	"strings"
 )
 
@@ -69,7 +70,11 @@ func guardOf(stmts []ast.Stmt, lenName string) (guard string, fail string) {
 func genWireTable() {
 	f := parse("protocol/reader.go")
 	fd := findFunc(f, "Read")
-	var rows []string
+	type grow struct {
+		id, sub int64
+		text    string
+	}
+	var grows []grow
 	frameCap := int64(-1)
 	if fd != nil {
 		ast.Inspect(fd.Body, func(n ast.Node) bool {
@@ -94,9 +99,9 @@ func genWireTable() {
 						g, fl := guardOf(c.Body, "length")
 						for _, e := range c.List {
 							if v, ok := constInt(e); ok {
-								rows = append(rows, fmt.Sprintf("  ⟨%d, none, %s, %s⟩", v, g, fl))
+								grows = append(grows, grow{v, -1, fmt.Sprintf("  ⟨%d, none, %s, %s⟩", v, g, fl)})
 							} else {
-								rows = append(rows, fmt.Sprintf("  ⟨999, none, .none, .other⟩ /- unknown case %s -/", src(e)))
+								grows = append(grows, grow{999, -1, fmt.Sprintf("  ⟨999, none, .none, .other⟩ /- unknown case %s -/", src(e))})
 							}
 						}
 					}
@@ -121,13 +126,24 @@ func genWireTable() {
 									v = nv
 								}
 							}
-							rows = append(rows, fmt.Sprintf("  ⟨20, some %d, %s, %s⟩", v, g, fl))
+							grows = append(grows, grow{20, v, fmt.Sprintf("  ⟨20, some %d, %s, %s⟩", v, g, fl)})
 						}
 					}
 				}
 			}
 			return true
 		})
+	}
+	// source order of the cases is irrelevant to behaviour: emit sorted by (id, sub-id)
+	sort.SliceStable(grows, func(i, j int) bool {
+		if grows[i].id != grows[j].id {
+			return grows[i].id < grows[j].id
+		}
+		return grows[i].sub < grows[j].sub
+	})
+	var rows []string
+	for _, g := range grows {
+		rows = append(rows, g.text)
 	}
 	// writer table: the cases of the type switch in protocol.Write and the id each emits
 	wf := parse("protocol/writer.go")
@@ -177,6 +193,7 @@ func genWireTable() {
 			return false
 		})
 	}
+	sort.Strings(wrows)
 	var b strings.Builder
 	b.WriteString("import Storrent.Model.WireTable\n")
 	b.WriteString("-- GENERATED by harness/cmd/extract from protocol/reader.go and protocol/writer.go; do not edit\n")
